@@ -159,9 +159,9 @@ func (o *Node) setNotFound(path Path, n *Node, desc *proto.TypeDescriptor) error
 		// pair tag
 		fdNum := desc.BaseId()
 		pairTag := protowire.AppendVarint(nil, uint64(fdNum)<<3|uint64(proto.BytesType))
-		buf := path.ToRaw(n.t) // keytag + key
+		buf := path.ToRaw(desc.Key().Type()) // keytag + key
 		valueWireType := desc.Elem().WireType()
-		valueTag := uint64(1)<<3 | uint64(valueWireType)
+		valueTag := uint64(2)<<3 | uint64(valueWireType)
 		buf = protowire.BinaryEncoder{}.EncodeUint64(buf, valueTag)                  // + value tag
 		src := n.raw()                                                               // + value
 		buf = append(buf, src...)                                                    // key + value
